@@ -166,6 +166,11 @@ pub fn analyse(case: &LoopCase, result: &Result<(), String>, d: &Driver, sel: u3
               if sel & P12 != 0 && tablet_mode {
                 return fail(12, "write-in-tablet-mode", format!("call {}: send [{}] after a time-out while tablet mode is on", i + 1, evs_text(&evs)));
               }
+              if sel & P12 != 0 && tablet_seen && !chord_allowed {
+                // "after it turns off mapping resumes as from a fresh start": a fresh start has no
+                // repeat armed, so a timer chord needs a firing step since the last tablet event
+                return fail(12, "timer-chord-survives-tablet-mode", format!("call {}: send [{}] after a time-out although no key event since the last tablet-mode change armed a repeat (a fresh start has none pending)", i + 1, evs_text(&evs)));
+              }
               if sel & P11 != 0 {
                 if !chord_allowed {
                   return fail(11, "chord-without-pending-repeat", format!("call {}: send [{}] after a time-out although no repeat is pending{}", i + 1, evs_text(&evs), if tablet_mode { " (tablet mode)" } else { "" }));
@@ -993,6 +998,11 @@ pub fn check_trace_prop(which: u32, cfg: &RunCfg, findings: &Findings) -> Report
   if replay_regressions(which, &name, &mut rep, &run) {
     return rep;
   }
+  // (VERIF_ONLY_REAL is a development switch: measure what the real-descriptor stage finds alone)
+  if std::env::var("VERIF_ONLY_REAL").is_ok() && (which == 10 || which == 12) {
+    crate::props_real::stage(which, cfg, findings, &mut rep);
+    return rep;
+  }
   let per_shard: u32 = if quick { 20_000 } else { 150_000 };
   let (st, fail) = run_prop(
     cfg,
@@ -1134,8 +1144,12 @@ pub fn check_trace_prop(which: u32, cfg: &RunCfg, findings: &Findings) -> Report
       }
     }
   }
+  if (which == 10 || which == 12) && crate::props_real::stage(which, cfg, findings, &mut rep) {
+    return rep;
+  }
   crate::fuzzstage::stage(&mut rep, cfg, "fz_loop", which, 800_000, 900);
   rep.assumptions = vec![
+    "real-descriptor stage: the loop runs on the repository's real driver over socket pairs and a pipe owned by the harness; Special repeats are replaced by Disabled ones there (timers are C11's); quiescence = nothing unread and the loop's thread blocked in epoll_wait (/proc/self/task/<tid>/syscall); end of device (ENODEV) cannot be produced on a socket, every run ends with an injected failure".to_string(),
     "the scripted driver models two edge-triggered devices: readiness is reported once per arrival; an unread event whose readiness was already reported is lost if the loop polls again".to_string(),
     "the twin mapper (same layout, same code) defines the expected step outputs; the mapper itself is checked by C01-C09 and C19".to_string(),
     "timing uses the real monotonic clock with true interval bounds (no tolerance); time-outs are normally returned immediately, in a slice of cases the driver sleeps until the requested deadline".to_string(),
@@ -1284,6 +1298,10 @@ pub fn check_c20(cfg: &RunCfg, _findings: &Findings) -> Report {
   let quick = cfg.tier == Tier::Quick;
   let run = |c: &LoopCase| -> Result<(), Violation> { run_c20_case(c, None, None).map(|_| ()) };
   if replay_regressions(20, "C20", &mut rep, &run) {
+    return rep;
+  }
+  if std::env::var("VERIF_ONLY_REAL").is_ok() {
+    crate::props_real::stage(20, cfg, _findings, &mut rep);
     return rep;
   }
   let (mut st, fail) = run_prop(
@@ -1453,7 +1471,11 @@ pub fn check_c20(cfg: &RunCfg, _findings: &Findings) -> Report {
     }
     return rep;
   }
+  if crate::props_real::stage(20, cfg, _findings, &mut rep) {
+    return rep;
+  }
   rep.assumptions = vec![
+    "real-descriptor stage: the loop runs on the repository's real driver over socket pairs and a pipe owned by the harness; the run ends with EPIPE on the virtual keyboard or ECONNRESET on the keyboard / tablet switch; a failing poll cannot be produced on a real epoll descriptor (the scripted stage injects it)".to_string(),
     "one fault per run; the failing call performs no effect (a failed send wrote nothing, a failed read consumed nothing)".to_string(),
     "the driver call sequence of a scripted run is a function of the script and the code, not of time (time-outs are scripted)".to_string(),
   ];
@@ -1463,6 +1485,9 @@ pub fn check_c20(cfg: &RunCfg, _findings: &Findings) -> Report {
 pub fn replay(which: u32, file: &str) -> Result<(), Violation> {
   let text = std::fs::read_to_string(file).map_err(|e| Violation::new("io", format!("cannot read {}: {}", file, e)))?;
   let v: Value = serde_json::from_str(&text).map_err(|e| Violation::new("io", e.to_string()))?;
+  if crate::props_real::is_real_case(v.get("case").unwrap_or(&v)) {
+    return crate::props_real::replay(which, v.get("case").unwrap_or(&v));
+  }
   let c = LoopCase::from_json(v.get("case").unwrap_or(&v)).map_err(|e| Violation::new("io", e))?;
   if which == 20 {
     if has_storm(&c.script) {
